@@ -140,6 +140,15 @@ func c04Identities(k *fw.K, ra, rb tensor.Tensor, a, b, ab *ref.T) string {
 		return m
 	}
 	k.Count("identity_checks", 5)
+	for _, chk := range []struct {
+		t    tensor.Tensor
+		want *ref.T
+		what string
+	}{{ra, a, "A"}, {rb, b, "B"}, {rab, ab, "A.B"}} {
+		if e := rt.Compare(chk.t, chk.want, 0, 0, nil, 0); e != nil {
+			return "operand " + chk.what + " was modified by Transpose / MatMul: " + e.Error()
+		}
+	}
 	return ""
 }
 
@@ -339,6 +348,10 @@ func runC04(c *fw.Ctx) {
 		c.Case(func(k *fw.K) { c04Scaled(k) })
 	}
 
+	// tensors that took part in REJECTED calls are used again
+	for i := 0; i < c.Pick(2000, 20000); i++ {
+		c.Case(func(k *fw.K) { rejectThenReuse(k, RandShape(k.Rng, 0, 4, 3)) })
+	}
 	// ---- Dot ----
 	for _, dst := range Shapes(1, c.Pick(4, 5), 3) {
 		last := dst[len(dst)-1]
